@@ -168,7 +168,11 @@ func oracleJoinCase(t *testing.T, lines [][]string) string {
 				toks := strings.Fields(trace)
 				if b, ok := base[toks[1]]; ok {
 					if x := goMonitor(b, toks[2:], tokensOf(spec, ""), notU); x != "" {
-						fail("stream", where+":"+x)
+						if r.flagged && r.nested { // every key is in U: also a malformed event belongs to the known class
+							fail("f6:stream", where+":"+x)
+						} else {
+							fail("stream", where+":"+x)
+						}
 					}
 					if x := goMonitor(b, toks[2:], tokensOf(spec, ""), r.inU); x != "" {
 						fail("f6:stream", where+":"+x)
